@@ -1,5 +1,6 @@
 import PsVerif.Driver.Pure
 import PsVerif.Driver.Stateful
+import PsVerif.Driver.Abs
 /-
 psdriver: one request per line on stdin, one reply per line on stdout.
 The replies are computed by the SAME definitions the theorems in PsVerif/Props are about.
@@ -8,6 +9,7 @@ open PsVerif.Driver PsVerif.Model
 
 structure DState where
   rates : RateStore := []
+  abs : AbsState := .none
 
 def step (st : DState) (ws : List String) : DState × String :=
   match handlePure ws with
@@ -15,6 +17,9 @@ def step (st : DState) (ws : List String) : DState × String :=
   | none =>
   match handlePremium st.rates ws with
   | some (s, r) => ({ st with rates := s }, r)
+  | none =>
+  match handleAbs st.abs ws with
+  | some (a, r) => ({ st with abs := a }, r)
   | none => (st, "bad-op")
 
 partial def loop (hin hout : IO.FS.Stream) (st : DState) : IO Unit := do
